@@ -3,6 +3,7 @@ package main
 // C15: masking.
 
 import (
+	"math"
 	"fmt"
 	"math/rand"
 
@@ -100,6 +101,10 @@ func c15(args []string) error {
 			if r.Intn(2) == 0 {
 				s = r.Intn(L + 1)
 				l = r.Intn(L + 3)
+			}
+			if r.Intn(8) == 0 { // a length near the largest integer: start+length must not wrap around
+				s = r.Intn(L + 1)
+				l = math.MaxInt64 - r.Intn(3)
 			}
 			nogap, noref := r.Intn(2) == 0, r.Intn(2) == 0
 			emit(alpha, names, seqs, "Mask", fmt.Sprintf("OpMask %s %s %s %s %s %s", coqStr(ref), coqZ(s), coqZ(l), coqStr(mr), coqBool(nogap), coqBool(noref)),
